@@ -117,7 +117,7 @@ def judge(ctx, cases, conj=CONJ, kl=KL, kg=KG, tag="c02"):
 
 def run(ctx):
     rng = random.Random(ctx.seed)
-    cases = gen(ctx, rng, 3 if ctx.tier == "quick" else 24)
+    cases = gen(ctx, rng, 3 if ctx.tier == "quick" else 16)
     judge(ctx, cases)
     ctx.rule = ("6 adaptive solvers x 7 closed-form families x dimension 1-4 x tol 1e-3..1e-10, dtmax = min(0.5, bound of the "
                 "property's precondition); every consecutive pair judged; a path is non-trivial when it has more than 1.5x the "
